@@ -17,7 +17,7 @@ EXPLANATION = (
     'in __enter__ and removed in __exit__ of a class that is only used as a '
     'with-item. Decides the property completely relative to the primitive '
     'table.'
-    " R15.4: every validation check (build-name comparison, cache reader, validators, argument type tests) precedes every effect wherever it lives. R15.5: no effect unless the build name was compared, except when the name is None or there is no cache file. R15.6: the reader returns normally only after it decoded with the writer's inverse codec and established dict / software tag / format version.")
+    " R15.4: every validation check (build-name comparison, cache reader, validators, argument type tests) precedes every effect wherever it lives. R15.5: no effect unless the build name was compared, except when the name is None or there is no cache file. R15.6: the reader returns normally only after it decoded with the writer's inverse codec and established dict / software tag / format version. R15.7: no handler around a call of the reader lets the entry point carry on (except exactly FileNotFoundError).")
 
 EFFECTS = (DESTROY, CREATE, USER, UNKNOWN)
 
@@ -329,7 +329,7 @@ def r15_6(ctx, rc):
     the file decodes with the writer's codec, is a dict carrying this
     software's tag, and has the current format version."""
     from .c16 import r16_3
-    r16_3(ctx, rc)
+    r16_3(ctx, rc)          # includes the sibling-construction agreement
     C = ctx.R.cache
     Rd = ctx.E.func(C + '.read_immutable')
     sg = ctx.helpers_graph(Rd, stop=(C + opt('._operations_from_json'),
@@ -372,6 +372,79 @@ def r15_6(ctx, rc):
             rc.ok({'reader_requires': what}, key=key)
 
 
+def _always_raises(stmts):
+    if not stmts:
+        return False
+    last = stmts[-1]
+    if isinstance(last, ast.Raise):
+        return True
+    if isinstance(last, ast.If):
+        return bool(last.orelse) and _always_raises(last.body) and \
+            _always_raises(last.orelse)
+    return False
+
+
+def r15_7(ctx, rc):
+    """A refusal of the cache reader is never swallowed: no handler around a
+    call of the reader (or of a helper that calls it) lets the entry point
+    carry on - except for exactly FileNotFoundError, which is the "no cache
+    file" case the entry points handle anyway."""
+    R = ctx.R
+    prog = ctx.prog
+    reader = R.cache + '.read_immutable'
+    ctx.E.func(reader)
+    todo = [reader]
+    seen = set()
+    n = 0
+    while todo:
+        q = todo.pop()
+        if q in seen:
+            continue
+        seen.add(q)
+        for caller, call in prog.callers().get(q, []):
+            if caller.cls != R.builder:
+                continue
+            n += 1
+            key = 'call of %s in %s' % (q, caller.qualname)
+            bad = None
+            node = call
+            while node is not None and node is not caller.node:
+                par = prog.parent(node)
+                if isinstance(par, ast.Try) and any(
+                        node is b or any(node is x for x in ast.walk(b))
+                        for b in par.body):
+                    for h in par.handlers:
+                        names = []
+                        if h.type is None:
+                            names = ['BaseException']
+                        else:
+                            ts = h.type.elts if isinstance(
+                                h.type, ast.Tuple) else [h.type]
+                            names = [ast.unparse(t).split('.')[-1]
+                                     for t in ts]
+                        if _always_raises(h.body):
+                            continue
+                        if names == ['FileNotFoundError']:
+                            continue
+                        bad = (h, names)
+                node = par
+            if bad:
+                rc.violation(
+                    'reader-refusal-swallowed | ' + caller.qualname,
+                    'a handler for %s around the call of %s does not '
+                    're-raise: a cache path that is a directory, unreadable '
+                    'or not a cache file is treated like a first build, and '
+                    'the whole build runs before the path is rejected' % (
+                        '/'.join(bad[1]), q), prog.loc(caller, bad[0]),
+                    key=key)
+            else:
+                rc.ok({'site': key}, key=key)
+            if not caller.is_public:
+                todo.append(caller.qualname)
+    if n < 2:
+        raise AnalysisError('only %d call sites of the cache reader' % n)
+
+
 RULES = [
     ('R15.1', 'no mutating effect can precede a refusal point', r15_1),
     ('R15.2', 'refusal callees are read-only', r15_2),
@@ -379,4 +452,5 @@ RULES = [
     ('R15.4', 'every validation check precedes every effect', r15_4),
     ('R15.5', 'no effect unless the build name was compared', r15_5),
     ('R15.6', 'the reader accepts only files it can vouch for', r15_6),
+    ('R15.7', 'a refusal of the cache reader is never swallowed', r15_7),
 ]
